@@ -1,10 +1,4 @@
-HOOK_COMMITS = []
+"""Manifest texts now live next to each property's check configuration (tools/props.d/Cxx.py: TEXT)."""
+from props import TEXT
+HOOK_COMMITS = ['e98ba37']
 NOT_APPLICABLE = {}
-TEXT = {
- 'C01': {
-  'design_ref': 'DESIGN.md section 4, C01',
-  'technique': 'Lean 4 theorems (round trip, byte-exact re-encoding, exact size, writer agreement) over a hand-written model of the Message codec + differential correspondence of model and real code on random API op sequences',
-  'text': 'Proved in Lean for every well-formed Message value (all field types, counts, nesting, orders): decode(encode m) = canonical m, re-encoding reproduces the bytes, size function = number of bytes written, inline and array writers agree; mutators preserve well-formedness.  The model is tied to the C++ code by running both on the same random op sequences (bytes, sizes, dumps, equality results must be identical) and by a direct round-trip oracle on the real Message class.',
-  'note': 'Assumes sizes < 2^32 and nesting within MUSCLE_MAX_MESSAGE_NESTING_DEPTH (explicit hypotheses).  Trusted: Lean kernel, the statement files, the correspondence harness (sampling), constants regenerated from /repo headers.  The model is hand-written; a defect the generators never reach and the model does not share stays invisible.',
- },
-}
